@@ -88,6 +88,37 @@ func checkC08(c *Ctx) {
 					hasPhantom = true
 				}
 			}
+			// through a key helper of the package (a function or method that builds / renders the key): what it
+			// returns, and through a local struct: what was stored into it
+			if call, ok := v.(*ssa.Call); ok {
+				if h := helperCallee(u.f, &call.Call); h != nil {
+					eachInstr(h, func(in2 ssa.Instruction) {
+						if ret, ok := in2.(*ssa.Return); ok {
+							for _, rv := range ret.Results {
+								walk(rv, d+1)
+							}
+						}
+					})
+				}
+			}
+			if al, ok := v.(*ssa.Alloc); ok && al.Referrers() != nil {
+				for _, ref := range *al.Referrers() {
+					switch x := ref.(type) {
+					case *ssa.Store:
+						if x.Addr == ssa.Value(al) {
+							walk(x.Val, d+1)
+						}
+					case *ssa.FieldAddr:
+						if x.Referrers() != nil {
+							for _, r2 := range *x.Referrers() {
+								if st, ok := r2.(*ssa.Store); ok && st.Addr == ssa.Value(x) {
+									walk(st.Val, d+1)
+								}
+							}
+						}
+					}
+				}
+			}
 			if in, ok := v.(ssa.Instruction); ok {
 				for _, op := range in.Operands(nil) {
 					if *op != nil {
@@ -112,8 +143,26 @@ func checkC08(c *Ctx) {
 		} else {
 			r.OK("C08.1", construct+" depends on phantom and identifier", u.in.Pos(), firstN(pathOf(u.key), 160))
 		}
-		// shape: path with the registration parameter name normalised
+		// shape: path with the registration parameter name normalised (a key object held in a local reads as the
+		// call that produced it)
 		p := pathOf(u.key)
+		if call, ok := u.key.(*ssa.Call); ok && len(call.Call.Args) > 0 {
+			if ld, ok := call.Call.Args[0].(*ssa.UnOp); ok {
+				if al, ok := ld.X.(*ssa.Alloc); ok && al.Referrers() != nil {
+					var src ssa.Value
+					n := 0
+					for _, ref := range *al.Referrers() {
+						if st, ok := ref.(*ssa.Store); ok && st.Addr == ssa.Value(al) {
+							src = st.Val
+							n++
+						}
+					}
+					if n == 1 && strings.HasPrefix(p, pathOf(ld)+".") {
+						p = pathOf(src) + strings.TrimPrefix(p, pathOf(ld))
+					}
+				}
+			}
+		}
 		for _, prm := range u.f.Params {
 			if strings.HasSuffix(typeShort(prm.Type()), "DecoyRegistration") {
 				p = regexp.MustCompile(`\b`+regexp.QuoteMeta(pname(prm))+`\b`).ReplaceAllString(p, "$$reg")
